@@ -409,6 +409,76 @@ def run_block(op, stmts, env, case):
             raise _Raised(k, ex) from ex
 
 
+def check_wiring(stmts, env, fdesc, bad):
+    """the built graph IS the traced sequence of calls: the node that produced each returned value has the traced
+    operator, the traced values as operands (same ir.Value objects), the traced literals as constants and the traced
+    attributes - also in code whose results are never used"""
+    import onnx_ir as ir
+
+    def const_of(v):
+        if v is None:
+            return None
+        if v.const_value is not None and v.producer() is None:
+            return v.const_value.numpy()
+        p = v.producer()
+        if p is not None and p.op_type == "CastLike":
+            return const_of(p.inputs[0])
+        return None
+
+    for s in stmts:
+        kind = s["kind"]
+        if kind in ("push", "pop"):
+            continue
+        outs = [env.get(v) for v in s["outs"]]
+        if any(o is None for o in outs):
+            bad.append(f"call #{s['k']} ({s['op']}): a returned value is missing")
+            continue
+        node = outs[0].producer()
+        if kind == "inline":
+            fd = fdesc[s["fn"] - 1]
+            for o, v in zip(fd["outputs"], outs):
+                want = next(n["op"] for n in fd["nodes"] if any(x[1] == o for x in n["outs"]))
+                if v.producer() is None or v.producer().op_type != want:
+                    bad.append(f"call #{s['k']}: inlined {s['op']} returns a value produced by {v.producer().op_type if v.producer() else None}, its body computes that output with {want}")
+            continue
+        if node is None:
+            bad.append(f"call #{s['k']} ({s['op']}): returned value has no producer")
+            continue
+        if node.op_type != s["op"] or any(o.producer() is not node for o in outs) or list(node.outputs) != outs:
+            bad.append(f"call #{s['k']}: traced {s['op']}, node is {node.op_type} with outputs {[o.name for o in node.outputs]}")
+            continue
+        ins = list(node.inputs)
+        if len(ins) != len(s["args"]):
+            bad.append(f"call #{s['k']} ({s['op']}): {len(s['args'])} operands traced, node has {len(ins)}")
+            continue
+        for j, a in enumerate(s["args"]):
+            if a["a"] == "v":
+                if ins[j] is not env[a["v"]]:
+                    bad.append(f"call #{s['k']} ({s['op']}): operand {j} is {ins[j].name if ins[j] is not None else None}, traced value is {env[a['v']].name}")
+            elif a["a"] == "n":
+                if ins[j] is not None:
+                    bad.append(f"call #{s['k']} ({s['op']}): operand {j} was None in the trace")
+            else:
+                c = const_of(ins[j])
+                if c is None or not np.array_equal(np.asarray(c).astype(np.float64), np.asarray(LIT[a["l"]], dtype=np.float64)):
+                    bad.append(f"call #{s['k']} ({s['op']}): operand {j} should be the literal {LIT[a['l']]}, is {None if c is None else np.asarray(c).tolist()}")
+        if kind == "op":
+            for an, av in (s["at"] or {}).items():
+                at = node.attributes.get(an)
+                got = None if at is None else (list(at.value) if isinstance(at.value, (list, tuple)) else at.value)
+                if got != av:
+                    bad.append(f"call #{s['k']} ({s['op']}): attribute {an} = {got}, traced {av}")
+        if kind in ("if", "loop", "scan"):
+            names = ["then_branch", "else_branch"] if kind == "if" else ["body"]
+            for b, an in zip(s["subs"], names):
+                g = node.attributes[an].as_graph()
+                if [v for v in g.outputs] != [env.get(v) for v in b["res"]] or any(x is not y for x, y in zip(g.outputs, [env.get(v) for v in b["res"]])):
+                    bad.append(f"call #{s['k']} ({s['op']}): outputs of {an} are not the values the body returned")
+                if any(x is not env.get(v) for x, v in zip(g.inputs, b["ins"])) or len(g.inputs) != len(b["ins"]):
+                    bad.append(f"call #{s['k']} ({s['op']}): inputs of {an} are not the declared ones")
+                check_wiring(b["body"], env, fdesc, bad)
+
+
 def real_nodes(graph):
     """alpha of the built graph: node tree with names (same shape as the spec's node records)"""
     import onnx_ir as ir
@@ -492,6 +562,9 @@ def replay_trace(case):
             val.shape = ir.Shape(list(info["shape"]))
     for f in gb.functions.values():
         g.opset_imports.setdefault(f.domain, 1)
+    wiring = []
+    check_wiring(case["prog"], env, fdesc, wiring)
+    obs["wiring"] = wiring
     obs["nodes"] = real_nodes(g)
     obs["inits"] = [{"nm": k, "dt": DTN.get(np.dtype(v.const_value.dtype.numpy()), "?"), "shape": list(v.const_value.shape),
                      "data": [int(x) for x in np.asarray(v.const_value.numpy()).reshape(-1)]} for k, v in g.initializers.items()]
@@ -769,6 +842,8 @@ def judge_trace(ctx, case, obs, wf):
     minits = [{"nm": c["nm"], "dt": c["dt"], "shape": list(c["shape"]), "data": list(c["data"])} for c in case["inits"]]
     if obs["inits"] != minits:
         mism.append(f"initializers {obs['inits']} differ from the model's {minits}")
+    if obs.get("wiring"):
+        _report(ctx, dict(small, wiring=obs["wiring"]), f"the built graph is not the traced sequence of calls: {obs['wiring'][:3]}")
     if obs["outcome"] == "invalid":
         fid = "inline_default_attr_dropped" if "inline_default_attr_dropped" in why else ("subgraph_name_reuse" if "subgraph_name_reuse" in why else None)
         _report(ctx, dict(small, observed=obs["err"]), f"the built model is not valid: {obs['err']}", finding=fid)
@@ -877,7 +952,7 @@ def run(ctx: core.Ctx):
     w = max(2, core.NCPU // 3)
     jobs = {
         "Builder exhaustive": dict(module="Builder", cfg="Builder_quick.cfg" if q else "Builder_thorough.cfg", env=env, workers=w, timeout=3000),
-        "Builder simulate": dict(module="Builder", cfg="Builder_sim.cfg", env=env, workers=w, simulate=f"num={14 if q else 260}", depth=45,
+        "Builder simulate": dict(module="Builder", cfg="Builder_sim.cfg", env=env, workers=8, simulate=f"num={24 if q else 500}", depth=45,
                                  seed=ctx.seed + 1, timeout=3000),
         "Builder design": dict(module="Builder", cfg="Builder_design.cfg", env=env, workers=2, timeout=3000),
         "Builder vacuity": dict(module="Builder", cfg="Builder_vacuity.cfg", env=env, workers=1, timeout=1500),
